@@ -176,6 +176,15 @@ func H_C14_FormattedAs() {
 			verifAssert(ok && string(x) == vs[i], "C14.table.existing-kept")
 		}
 	}
+	if nondetBool() {
+		// the last writer may have had nothing to store: that is still an entry
+		e.FormattedAs(k, nil)
+		got, ok := e.Format(k)
+		verifAssert(ok && len(got) == 0, "C14.table.empty-value-is-an-entry")
+		e.FormattedAs(k, []byte{})
+		got, ok = e.Format(k)
+		verifAssert(ok && len(got) == 0, "C14.table.empty-value-is-an-entry")
+	}
 	verifReach("C14.table.end")
 }
 
